@@ -282,6 +282,18 @@ class NPFacade:
                 return F(k)
         raise OutOfBound(f'np.floor argument outside 0..{K}')
 
+    def isclose(s, a, b, rtol=1e-05, atol=1e-08, equal_nan=False):
+        if not (_is_sym(a) or _is_sym(b) or _is_sym(rtol) or _is_sym(atol)): return real_np.isclose(a, b, rtol=rtol, atol=atol, equal_nan=equal_nan)
+        # numpy's definition: |a - b| <= atol + rtol * |b|
+        d = a - b
+        if isinstance(d, SAbs): d = d._polar()
+        ab = abs(b) if _is_sym(b) else real_np.abs(b)
+        if isinstance(ab, SAbs): ab = ab._real_abs()
+        ad = abs(d) if isinstance(d, SC) else real_np.abs(d)
+        if isinstance(ad, SAbs): ad = ad._real_abs()
+        bound = atol + ab * F(rtol)
+        return SBool(lambda: bool(ad <= bound))
+
     def angle(s, z, deg=False):
         if not isinstance(z, SC): return real_np.angle(z, deg=deg)
         if deg: raise Inconclusive('np.angle(deg=True) of a symbolic value')
